@@ -211,6 +211,9 @@ if __name__ == "__main__":
     elif cmd == "intake8":
         for p in sys.argv[2:]:
             intake(p, "/tmp/w8_%s/seed_out" % p, "IJ")
+    elif cmd == "intake9":
+        for p in sys.argv[2:]:
+            intake(p, "/tmp/w9_%s/seed_out" % p, "K")
     elif cmd == "confirm":
         for s in sys.argv[2:]:
             confirm(s)
